@@ -1,5 +1,7 @@
 import GojaModel.C01.EmitProof
+import GojaModel.C01.StmtProof
 import GojaModel.C01.Flat
+import GojaModel.C01.Scope
 /-!
   C01 property theorems.  Every `theorem` here is one audited proof obligation.
 
@@ -60,6 +62,36 @@ theorem hasHt_flat_sound (c : Code) (h k : Nat) (hh : HasHt c h k)
     (code : List Node) (lo : Nat) (vs : List Nat) (fs : List Frame) (hp : Placed code lo c.nodes) (t : St)
     (hr : RunIn code lo (lo + c.len) ⟨lo, h, vs, fs⟩ t) : Within code lo c.len h k vs fs t :=
   flat_sound hh code lo vs fs hp t hr
+
+/-! ### (a) statements -/
+
+/-- Every statement of the modelled fragment (expression / empty / `var` statements, blocks, `if`, `while`, `do-while`,
+`for`, `return`, `throw`; compiler_stmt.go) is height-neutral, whatever `needResult` is and whatever the entry height:
+no instruction needs an operand below the entry height, the arms of every `if` and the back edge and exit of every loop
+agree, and if control leaves the statement it does so with exactly the entry height.  So no statement leaks an operand
+into the rest of its function (the leak `verify` cannot see, because `ret` resets sp) and no loop grows the stack. -/
+theorem emitStmt_height (cfg : Cfg) (s : Stmt) (nr : Bool) (h : Nat) : HasHt (emitS cfg s nr) h h :=
+  emitS_ht cfg s nr h
+
+/-- The same for a whole statement list compiled as a program body (`needResult`) or a function body. -/
+theorem emitBody_height (cfg : Cfg) (ss : Stmts) (nr : Bool) (h : Nat) : HasHt (emitBody cfg ss nr) h h :=
+  emitS_ht cfg (.block ss) nr h
+
+/-- The executable height function agrees (never `none`). -/
+theorem emitStmt_height_exec (cfg : Cfg) (s : Stmt) (nr : Bool) (h : Nat) :
+    (emitS cfg s nr).height (.live h) = some .dead ∨ (emitS cfg s nr).height (.live h) = some (.live h) :=
+  (emitS_ht cfg s nr h).sound
+
+/-- … and so does the abstract machine on the flat layout with its forward AND backward jump offsets: every run by
+normal steps that enters the code of a statement at `lo` with `h` operands — through any number of loop iterations —
+stays inside the statement, leaves try frames and variadic markers untouched, finds the operands of every instruction
+it executes, and leaves the statement only at its end, with exactly `h` operands. -/
+theorem emitStmt_flat_sound (cfg : Cfg) (s : Stmt) (nr : Bool) (h : Nat)
+    (code : List Node) (lo : Nat) (vs : List Nat) (fs : List Frame)
+    (hp : Placed code lo (emitS cfg s nr).nodes) (t : St)
+    (hr : RunIn code lo (lo + (emitS cfg s nr).len) ⟨lo, h, vs, fs⟩ t) :
+    Within code lo (emitS cfg s nr).len h h vs fs t :=
+  flat_sound (emitS_ht cfg s nr h) code lo vs fs hp t hr
 
 /-- Regression lemma about the mechanism BEFORE fix 5a4962f (`emitBindingSetPrefix`): `f = 5` with `f` the sloppy
 function-expression name and the value discarded — right operand followed by the old `emitSetP` — ended one operand
@@ -138,6 +170,36 @@ theorem unwind_height (code : List Node) (fr : Frame) (rest : List Frame) (s' : 
     · simp [hc] at hs
       subst hs
       simp
+
+/-! ### (b') scope analysis: stash levels -/
+
+/-- For every scope that satisfies the compiler's invariants, the compile-time predicate that counts it as a stash
+level (`scope.hasStash`, compiler.go:909) is true exactly when the VM creates a stash on entering it (enterBlock /
+enterCatchBlock / enterFunc* / enterFuncBody / enterWith / class initialiser). Three host crashes were violations of
+exactly this equation. -/
+theorem stash_level_iff_runtime_stash (s : Scope.Scope) (w : Scope.WF s) :
+    Scope.hasStash s = Scope.createsStash s :=
+  Scope.hasStash_eq_createsStash s w
+
+/-- Hence the level computed by finaliseVarAlloc for an access equals the number of stashes that really lie between
+the access and the owner of the binding, for scope chains of ANY length. -/
+theorem stash_level_counts_runtime_stashes (chain : List Scope.Scope) (w : ∀ s ∈ chain, Scope.WF s) :
+    (Scope.rtStashes chain).length = Scope.level chain :=
+  Scope.rtStashes_length chain w
+
+/-- Every emitted stash access `(level, idx)` addresses an existing slot: `level` hops outwards from the innermost
+run-time stash arrive at the stash of the scope that owns the binding, and `idx` lies inside it. -/
+theorem stash_access_addresses_existing_slot (chain : List Scope.Scope) (owner : Scope.Scope) (outerRest : List Nat)
+    (idx : Nat) (w : ∀ s ∈ chain, Scope.WF s) (wo : Scope.WF owner) (hidx : idx < Scope.stashSize owner) :
+    ∃ sz, (Scope.rtStashes chain ++ Scope.rtStashes [owner] ++ outerRest)[Scope.level chain]? = some sz ∧ idx < sz :=
+  Scope.stash_access_in_bounds chain owner outerRest idx w wo hidx
+
+/-- regression lemma (the mechanism before ce8862e counted `needStash || isDynamic`): an anonymous class body marked by a
+direct eval — a block scope with dynLookup and no bindings — was counted although no stash is created. -/
+theorem stash_level_prefix_witness :
+    let s : Scope.Scope := ⟨.block, false, true, false, false, false, false, 0, 0⟩
+    (s.needStash || s.isDynamic) = true ∧ Scope.createsStash s = false ∧ Scope.hasStash s = false := by
+  decide
 
 /-! ### (c) -/
 
